@@ -12,6 +12,7 @@ import (
 // TestWorker is the entry point used by the driver (cmd/verif).
 func TestWorker(t *testing.T) {
 	logrus.SetOutput(io.Discard)
+	kernel.NoSelfCheck["C36b"] = true
 	kernel.WorkerMain(t, map[string]kernel.CheckFn{
 		"C15": checkC15,
 		"C17": checkC17,
@@ -30,5 +31,7 @@ func TestWorker(t *testing.T) {
 		"C21": checkC21,
 		"C43": checkC43,
 		"C51": checkC51,
+		"C36a": checkC36a,
+		"C36b": checkC36b,
 	})
 }
